@@ -540,7 +540,7 @@ def decoder(function: Callable[[bytes], int], klass: Type[BaseValue] = NumericVa
 def packet_length(data: str) -> int:
     _str_bad_length = 'cloudflare already found that invalid max-packet length for for you ..'
     number = int(data)
-    if number > MAX_PACKET_LENGTH:
+    if number < 0 or number > MAX_PACKET_LENGTH:
         raise ValueError(_str_bad_length)
     return number
 
